@@ -1088,6 +1088,10 @@ class Interp:
             return it.as_slist()
         if hasattr(it, "as_slist"):
             return it.as_slist()
+        if isinstance(it, Obj) and it.cls.find("methods", "__iter__", self.classes) is None:
+            raise PyRaise("TypeError", "'%s' object is not iterable" % it.cls.name)
+        if isinstance(it, (Poly, int, float)) and not isinstance(it, bool):
+            raise PyRaise("TypeError", "'%s' object is not iterable" % type(it).__name__)
         raise Unsupported("iteration over %s" % type(it).__name__)
 
     def ev_ListComp(self, n, env):
